@@ -234,3 +234,80 @@ func VerifRun_C18c() {
 		verifViolation("", "a module for which no file exists under the documented mapping gets no file-not-found diagnostic (type 6)")
 	}
 }
+
+// d: module strings that carry a suffix or more dots than directories: the three features agree.
+// require("<n>.lua") names, under the documented mapping, <n>/lua.lua (every dot is a separator);
+// dofile("<n>.lua") names <n>.lua. Whatever the analysis loaded (ReferValidStr, empty when nothing was
+// found = type 6), go-to-definition and hover on the string lead to that file and to no other.
+func VerifRun_C18d() {
+	pathpre.InitialRootURIAndPath("file:///w", "/w")
+	dm := common.GConfig.GetDirManager()
+	dm.SetVSRootDir("/w")
+	dm.InitMainDir()
+	n := string(verifBytesIn("n", 1, "xy"))
+	fn := string([]byte{byte(verifConcretize(int(verifByteIn("fn", "xy"))))})
+	files := []string{"/w/m.lua"}
+	srcs := [][]byte{nil}
+	if verifBool("flatfile") { // /w/<fn>.lua
+		files = append(files, "/w/"+fn+".lua")
+		srcs = append(srcs, []byte("return 1\n"))
+	}
+	if verifBool("dirfile") { // /w/<fn>/lua.lua
+		files = append(files, "/w/"+fn+"/lua.lua")
+		srcs = append(srcs, []byte("return 2\n"))
+	}
+	if verifBool("initfile") { // /w/<fn>/init.lua
+		files = append(files, "/w/"+fn+"/init.lua")
+		srcs = append(srcs, []byte("return 3\n"))
+	}
+	call := "require"
+	if verifBool("dofile") {
+		call = "dofile"
+	}
+	mod := n
+	if verifBool("suffix") || call == "dofile" { // a dofile argument always carries its suffix
+		mod += ".lua"
+	}
+	main := []byte("local r = " + call + "(\"" + mod + "\")\nq = r\n")
+	srcs[0] = main
+	l := CreateLspServer()
+	l.project = check.VpProject(files, srcs)
+	l.fileCache.SetFileContent(files[0], main)
+	verifReach("resolved")
+	n6 := 0
+	for _, e := range l.project.GetAllFileErrorInfo()[files[0]] {
+		if e.ErrType == common.CheckErrorNoFile {
+			n6++
+		}
+	}
+	loaded := ""
+	if fs, ok := l.project.GetFirstFileStuct(files[0]); ok && fs.FileResult != nil {
+		for _, r := range fs.FileResult.ReferVec {
+			loaded = r.ReferValidStr
+		}
+	}
+	if (loaded == "") != (n6 > 0) {
+		verifViolation("", "the file-not-found diagnostic (type 6) does not agree with whether the analysis loaded a file")
+	}
+	pos := lsp.TextDocumentPositionParams{
+		TextDocument: lsp.TextDocumentIdentifier{URI: lsp.DocumentURI("file://" + files[0])},
+		Position:     lsp.Position{Line: 0, Character: uint32(len("local r = "+call+"(\"") + 1)}}
+	locs, _ := l.TextDocumentDefine(context.Background(), pos)
+	ends := func(s, suf string) bool { return len(s) >= len(suf) && s[len(s)-len(suf):] == suf }
+	if loaded == "" && len(locs) > 0 {
+		verifViolation("", "go-to-definition on the module string opens a file although the analysis found none")
+	}
+	if loaded != "" {
+		ok := false
+		for _, lc := range locs {
+			if ends(string(lc.URI), loaded) {
+				ok = true
+			} else {
+				verifViolation("", "go-to-definition on the module string leads to a file the analysis did not load")
+			}
+		}
+		if !ok {
+			verifViolation("", "go-to-definition on the module string does not lead to the file the analysis loaded")
+		}
+	}
+}
